@@ -5,6 +5,7 @@ package builder
 // every outcome, and isolation/removal of per-action build directories.
 
 import (
+	"syscall"
 	"context"
 	"os"
 	"sync/atomic"
@@ -55,7 +56,7 @@ func (d *verifC12_dir) Mkdir(name path.Component, perm os.FileMode) error {
 		return err
 	}
 	if _, ok := d.children[name.String()]; ok {
-		return status.Error(codes.AlreadyExists, "exists")
+		return syscall.EEXIST // what a native directory returns
 	}
 	d.children[name.String()] = &verifC12_dir{log: d.log, name: name.String(), children: map[string]*verifC12_dir{}}
 	*d.log = append(*d.log, "mkdir:"+name.String())
@@ -156,7 +157,7 @@ func verifC12_digest() *digest.Digest {
 }
 
 func verifHarness_C12_SharedBuildDirectoryCreator() {
-	rt.MustCover("shared:ok", "shared:base-failed", "shared:mkdir-failed", "shared:enter-failed", "shared:parallel", "shared:digest")
+	rt.MustCover("shared:ok", "shared:base-failed", "shared:mkdir-failed", "shared:enter-failed", "shared:parallel", "shared:digest", "shared:same-digest-twice")
 	var log []string
 	root := &verifC12_dir{log: &log, name: "root", children: map[string]*verifC12_dir{}}
 	base := &verifC12_base{dir: root}
@@ -211,6 +212,19 @@ func verifHarness_C12_SharedBuildDirectoryCreator() {
 		return
 	}
 	child := root.children[name]
+	// The same action arriving on a second thread while the first still runs it
+	// is refused: its directory is never shared (and never torn down under it).
+	if rt.NondetBool("the same action arrives a second time meanwhile") {
+		rt.Cover("shared:same-digest-twice")
+		bd2, _, err2 := dc.GetBuildDirectory(verifC12Ctx{}, dg)
+		if base.failed {
+			return
+		}
+		rt.Assert(err2 != nil && bd2 == nil, "an action's build directory is never handed out to a second action while it is in use")
+		rt.Assert(root.children[name] == child && child.closed == 0, "the running action's directory is left alone")
+		root.closed = 0 // (the refused attempt closed its own reference to the parent)
+		log = nil
+	}
 	cerr := bd.Close()
 	rt.Assert(child.closed == 1, "child directory closed exactly once")
 	rt.Assert(verifC12_contains(log, "removeall:"+name) == 1, "the action's directory is removed when the action ends, also when closing it failed")
